@@ -73,14 +73,27 @@ theorem data_size_rows (k : Kind) (w h : Nat) (n : Int) (hn : n = if k = .rgb8 t
   cases k <;> simp only [bpcOf, rowBytes] <;> simp <;> omega
 
 theorem get_writer (s : Spell) (k : Kind) (w h : Nat) :
-    getAny (writerDict s k w h) [kF, kFilter] = none ∧
-    getAny (writerDict s k w h) [kW, kWidth] = some (.int w) ∧
-    getAny (writerDict s k w h) [kH, kHeight] = some (.int h) ∧
-    getAny (writerDict s k w h) [kIM, kImageMask] = none ∧
-    getAny (writerDict s k w h) [kBPC, kBitsPerComponent] = some (.int (bpcOf k)) ∧
-    getAny (writerDict s k w h) [kCS, kColorSpace] = some (.name (csNameOf s.vc k)) := by
+    getAny (writerDict s k w h) sizeKeysFilter = none ∧
+    getAny (writerDict s k w h) sizeKeysWidth = some (.int w) ∧
+    getAny (writerDict s k w h) sizeKeysHeight = some (.int h) ∧
+    getAny (writerDict s k w h) sizeKeysImageMask = none ∧
+    getAny (writerDict s k w h) sizeKeysBits = some (.int (bpcOf k)) ∧
+    getAny (writerDict s k w h) sizeKeysColorSpace = some (.name (csNameOf s.vc k)) := by
   obtain ⟨kw, kh, kb, kc, vc⟩ := s
   cases kw <;> cases kh <;> cases kb <;> cases kc <;> exact ⟨rfl, rfl, rfl, rfl, rfl, rfl⟩
+
+/-- The same look-ups through the key tuples of `LTImage.__init__` / `do_EI` / `do_keyword`. -/
+theorem get_writer_lt (s : Spell) (k : Kind) (w h : Nat) :
+    getAny (writerDict s k w h) keysEosFilter = none ∧
+    getAny (writerDict s k w h) keysWidth = some (.int w) ∧
+    getAny (writerDict s k w h) keysHeight = some (.int h) ∧
+    getAny (writerDict s k w h) keysImageMask = none ∧
+    getAny (writerDict s k w h) keysBits = some (.int (bpcOf k)) ∧
+    getAny (writerDict s k w h) keysColorSpace = some (.name (csNameOf s.vc k)) ∧
+    getAny (writerDict s k w h) doEIKeysWidth = some (.int w) ∧
+    getAny (writerDict s k w h) doEIKeysHeight = some (.int h) := by
+  obtain ⟨kw, kh, kb, kc, vc⟩ := s
+  cases kw <;> cases kh <;> cases kb <;> cases kc <;> exact ⟨rfl, rfl, rfl, rfl, rfl, rfl, rfl, rfl⟩
 
 theorem size_writer (s : Spell) (k : Kind) (w h : Nat) (hw : 1 ≤ w) (hh : 1 ≤ h) :
     inlineSize (writerDict s k w h) = some (h * rowBytes k w) := by
